@@ -49,7 +49,7 @@ func (w *c08World) canRead() bool { return w.state == StateActive || w.state == 
 func (w *c08World) step() {
 	switch vf.Choice("event", 10) {
 	case 0: // peer ping
-		n := [3]int{0, 2, 125}[vf.Choice("ping.len", vf.Bound("ping-length-classes", 2, 3))]
+		n := [3]int{125, 0, 2}[vf.Choice("ping.len", vf.Bound("ping-length-classes", 2, 3))] // the largest legal control payload is in both tiers
 		p := vf.Bytes("ping", n)
 		w.peer(&wsFrame{fin: true, opcode: 9, n: n, payload: p})
 		f, err := w.read()
